@@ -533,6 +533,9 @@ func faultJobs(c *vh.Ctx) []job {
 				// one entry point without a context and one with, rotating; all five for the primary statement (thorough: for the
 				// first command class of every statement)
 				entries := []string{noCtx[(si+fi+ci)%2], withCtx[(si+fi+ci)%3]}
+				if !usesCmd && !c.Thorough() {
+					entries = []string{faultEntries[(si+fi)%len(faultEntries)]}
+				}
 				if primary || (c.Thorough() && ci == 0) {
 					entries = faultEntries
 				}
@@ -556,7 +559,7 @@ func faultJobs(c *vh.Ctx) []job {
 		}
 	}
 	// ---- random: 1-5 statements, 1-2 faults, any placement
-	n := c.N(600, 3000)
+	n := c.N(400, 3000)
 	for i := 0; i < n; i++ {
 		var st []int
 		for j := 1 + c.Rng.Intn(5); j > 0; j-- {
